@@ -434,7 +434,10 @@ where
             return None;
         }
 
-        if COMPRESSED && self.codes_encode.as_ref().unwrap()[symbol.as_() as usize].len == 0 {
+        if COMPRESSED
+            && (symbol.as_() >= self.codes_encode.as_ref().unwrap().len()
+                || self.codes_encode.as_ref().unwrap()[symbol.as_() as usize].len == 0)
+        {
             return None;
         }
 
